@@ -360,7 +360,7 @@ theorem fractionalNelec_int (m : MO) (o : List Rat) (ho : m.occs = some o) (k : 
     fractionalNelec m = false := by
   unfold fractionalNelec nelec
   simp only [ho, Option.map_some, hk, roundHalfEven_int]
-  simp [absR, tol1em7]
+  simp [absR, tolNelec]
   norm_num
 
 /-! ### the funnel of `api.dump_one` -/
